@@ -2,6 +2,8 @@
 
 package iterable
 
+import "fmt"
+
 // VerifNode is a pointer-free view of one list node.
 type VerifNode[K comparable, V any] struct {
 	State  int // 0 sentinel(last), 1 live, 2 deleted
@@ -75,4 +77,15 @@ func VerifIterPos[K comparable, V any](im *Map[K, V], it Iterator[MapEntry[K, V]
 		n++
 	}
 	return -2
+}
+
+// VerifPoolDump describes the nodes parked in the map's free list (structural fields only), oldest first.
+// Requires the rewritten map.go (the pool is the deterministic shim pool).
+func VerifPoolDump[K comparable, V any](im *Map[K, V]) []string {
+	var r []string
+	for _, x := range im.pool.Items() {
+		n := x.(*rlItem[K, V])
+		r = append(r, fmt.Sprintf("s%d/r%d/p%v/n%v", n.state, n.refCnt, n.prev != nil, n.next != nil))
+	}
+	return r
 }
